@@ -321,7 +321,56 @@ func (e *Engine) oblige(st *State, kind, detail string, pos token.Pos, goal smt.
 	if pos.IsValid() && e.Fset != nil {
 		o.Pos = e.Fset.Position(pos)
 	}
+	if strings.Contains(goal.S, "(exists ") {
+		o.Assumes = append(o.Assumes, e.witnessHints(st)...)
+	}
 	e.Obls = append(e.Obls, o)
+}
+
+// witnessHints puts the ground terms s[n] (s a slice variable, n an integer
+// variable of the state, or n-1 where its value is n'+1) into the query, under
+// an uninterpreted predicate that says nothing: existential goals need a
+// witness, and E-matching only finds one among terms that occur in the query.
+func (e *Engine) witnessHints(st *State) []smt.T {
+	var slices, ints []smt.T
+	var vs []*types.Var
+	for o := range st.vars {
+		if v, ok := o.(*types.Var); ok {
+			vs = append(vs, v)
+		}
+	}
+	sortVars(vs)
+	seen := map[string]bool{}
+	for _, v := range vs {
+		t := st.vars[v]
+		switch u := v.Type().Underlying().(type) {
+		case *types.Slice:
+			slices = append(slices, t)
+		case *types.Basic:
+			if u.Info()&types.IsInteger != 0 && t.Sort == smt.Int && !seen[t.S] {
+				seen[t.S] = true
+				ints = append(ints, t)
+				if strings.HasPrefix(t.S, "(+ ") && strings.HasSuffix(t.S, " 1)") {
+					in := strings.TrimSuffix(strings.TrimPrefix(t.S, "(+ "), " 1)")
+					if !strings.ContainsAny(in, " ()") && !seen[in] {
+						seen[in] = true
+						ints = append(ints, smt.T{S: in, Sort: smt.Int})
+					}
+				}
+			}
+		}
+	}
+	if len(slices) == 0 || len(ints) == 0 || len(slices)*len(ints) > 40 {
+		return nil
+	}
+	e.Decls.Fun("hint!v", []smt.Sort{smt.V}, smt.Bool)
+	var out []smt.T
+	for _, s := range slices {
+		for _, n := range ints {
+			out = append(out, smt.App(smt.Bool, "hint!v", smt.App(smt.V, "s_at", s, n)))
+		}
+	}
+	return out
 }
 
 // Queries turns the collected obligations into solver queries. Declarations
